@@ -268,7 +268,15 @@ def run(ctx: Ctx, replay: str | None) -> None:
     if seen:
         ctx.note("ConFIG performs no input validation (not a violation, outside the rejection clause of C11): "
                  + "; ".join(sorted(seen)[:12]))
-    for i in (0, len(scenarios) // 2, len(scenarios) - 1):
+    def _first(pred):
+        return next((i for i, s in enumerate(scenarios) if pred(s)), 0)
+    picks = [_first(lambda s: s["mode"] == "hist" and s["kind"]["agg"] == "PCGrad"
+                    and any(st["op"] == "seed" for st in s["steps"]) and s["steps"][-1].get("expect") == "vector"),
+             _first(lambda s: s["mode"] == "single" and s["kind"]["agg"] == "Constant"
+                    and s["steps"][0]["expect"] == "ValueError" and len(s["steps"][0]["c"]["dims"]) == 2),
+             _first(lambda s: s["mode"] == "hist" and s["kind"]["agg"] == "UPGrad"
+                    and len({json.dumps(st.get("c")) for st in s["steps"]}) == 3 and s["steps"][-1].get("expect") == "vector")]
+    for i in picks:
         s = scenarios[i]
         ctx.sample({"scenario": {"kind": s["kind"]["name"], "history": hist_text(s),
                                  "expect": [st.get("expect") for st in s["steps"]],
